@@ -4,7 +4,7 @@
    conversion and of interpreters/pdl_interp.py); Spec: position semantics eval_pos / seq_eval in
    C27/ProofsChain.v, side conditions in C27/ProofsMatch.v and C27/Proofs.v. *)
 From Coq Require Import ZArith List Bool.
-From XV Require Import Base.Show C27.Model C27.Enc C27.ProofsChain C27.ProofsOrder C27.ProofsMatch C27.ProofsGuard C27.ProofsTotal C27.Proofs C27.ProofsEnv C27.ProofsRewrite C27.ProofsRewriteTop.
+From XV Require Import Base.Show C27.Model C27.Enc C27.ProofsChain C27.ProofsOrder C27.ProofsMatch C27.ProofsGuard C27.ProofsTotal C27.Proofs C27.ProofsEnv C27.ProofsRewrite C27.ProofsRewriteFull C27.ProofsRewriteTop.
 Import ListNotations.
 Local Open Scope Z_scope.
 
@@ -119,6 +119,23 @@ Theorem C27_rewrite_equiv_repaired : forall P pl x c seen',
 Proof. exact rewrite_equiv_repaired. Qed.
 Print Assumptions C27_rewrite_equiv_repaired.
 
+(* C27_rewrite_equiv in full (every outcome: rewritten payload, no match, exception) for the rewrites the executable
+   check rewrite_frag_ok accepts: a pdl.result in the rewrite part only of a new operation whose result count
+   (declared types, or inferred from the replaced root) covers the index; no empty replacement list; for a root
+   without declared result types a replacement operation that has no results; every match-part value the rewrite
+   reads is reached by the match tree; no pdl.result after the replace / erase.  What stays outside are ill-typed
+   rewrites, on which the two paths differ on the real code as well (pdl.result index beyond the results of the new
+   operation: IndexError vs null value; replacement with results for a root without results: ValueError vs erase);
+   for those only C27_rewrite_equiv_partial (direction "the direct application rewrites") applies. *)
+Theorem C27_rewrite_equiv : forall fx P pl x c,
+  fx_erase fx = true -> fx_range fx = true -> fx_infer fx = true ->
+  match_side_conditions fx P pl -> rewrite_static_ok fx P = true -> compile_guarded fx P = true ->
+  rewrite_frag_ok fx P = true ->
+  find_op pl (o_id x) = Some x -> compile fx P = Some c ->
+  pdl_apply fx P pl (o_id x) = interp_apply fx c pl (o_id x).
+Proof. exact rewrite_equiv_full. Qed.
+Print Assumptions C27_rewrite_equiv.
+
 (* the core of it: statement-by-statement simulation of the generated rewriter function against the direct rewrite,
    for ANY rewriter arguments that are the direct bindings of the values they translate *)
 Theorem C27_rewriter_simulates_direct_rewrite :
@@ -231,3 +248,6 @@ Print Assumptions C27_example_refs_ok.
 Example C27_example_rewrite_static_ok : rewrite_static_ok repaired ex_pattern = true /\ rewrite_static_ok as_found ex_pattern = true.
 Proof. split; vm_compute; reflexivity. Qed.
 Print Assumptions C27_example_rewrite_static_ok.
+Example C27_example_frag_ok : rewrite_frag_ok repaired ex_pattern = true.
+Proof. vm_compute. reflexivity. Qed.
+Print Assumptions C27_example_frag_ok.
